@@ -19,10 +19,7 @@ for (name, prop), (status, nsig, secs, first) in sorted(rows.items()):
     mj = os.path.join(ROOT, "seeded", name, "meta.json")
     if os.path.exists(mj):
         meta = json.load(open(mj))
-        notes = os.path.join(ROOT, "seeded", name, "NOTES.md")
-        if os.path.exists(notes):
-            ls = [x.strip() for x in open(notes).read().splitlines() if x.strip() and not x.startswith("#")]
-            desc = " ".join(ls[:2])[:260]
+        desc = meta.get("needs_to_manifest", "")
         meta["detected_by"] = {"check": f"./run.py quick {prop}", "result": status, "signatures": int(nsig or 0), "first_signature": first.split(": ")[0][:200]}
         json.dump(meta, open(mj, "w"), indent=1)
     else:
